@@ -216,6 +216,8 @@ MUTANTS["C10"] = [
     ("acl-text-not-dedented", "annet/generators/result.py", "        for line in textwrap.dedent(acl_getter(gr)).split(\"\\n\"):", "        for line in acl_getter(gr).split(\"\\n\"):"),
     ("block_if-empty-token-still-blocks", "annet/generators/base.py", "            condition = (None not in tokens and \"\" not in tokens)", "            condition = (None not in tokens)"),
     ("exclusive-flag-dropped", "annet/gen.py", "                exclusive=not ctx.args.no_acl_exclusive,\n                with_annotations=ctx.add_annotations,\n            )\n            if ctx.args.acl_safe:", "                exclusive=False,\n                with_annotations=ctx.add_annotations,\n            )\n            if ctx.args.acl_safe:"),
+    ("indented-hash-ends-block", "annet/annlib/tabparser.py", '        if "#" in comments and line.startswith("#"):', '        if "#" in comments and stripped.startswith("#"):'),
+    ("cant_delete-default-any-interface-word", "annet/annlib/rbparser/acl.py", '(lambda raw_rule: [raw_rule.startswith("interface")])', '(lambda raw_rule: ["interface" in raw_rule])'),
 ]
 
 MUTANTS["C14"] = [
